@@ -127,7 +127,7 @@ def cli_sample(bins, pid, tier, seed):
                 # acyclic by construction: only use targets that sort before this one and do not enclose / nest
                 others = [q for q in others if q < p and not p.startswith(q + "/") and not q.startswith(p + "/")]
             if others and k:
-                t["uses"] = [rng.choice(others) + rng.choice(["", "/src.txt"]) for _ in range(min(k, len(others)))]
+                t["uses"] = [rng.choice(others) + rng.choice(["", "/src.txt", "/", "/."]) for _ in range(min(k, len(others)))]
             ts.append(t)
         rng.shuffle(ts)
         fx = fixture.Fixture(bins, ts)
@@ -257,9 +257,32 @@ def cli_sample(bins, pid, tier, seed):
             return a_recs, r_recs
         finally:
             fx.cleanup()
+    def empty():
+        # the smallest configuration: no target at all (`"targets": []`, or the key left out) -- trivially acyclic, its
+        # layering is the empty list of groups
+        recs = []
+        for variant in ("empty_list", "omitted"):
+            fx = fixture.Fixture(bins, [])
+            try:
+                if variant == "omitted":
+                    cfg = fx.config()
+                    cfg.pop("targets", None)
+                    fx.write_config(json.dumps(cfg))
+                fx.git_init()
+                for api, args in (("cli_analyze", ["analyze", "--target-groups"]), ("cli_target_show", ["target", "show", "-g"])):
+                    r = fx.monorail(args)
+                    if r["rc"] == 0 and isinstance(r["out"], dict) and r["out"].get("target_groups") is not None:
+                        o = {"ok": True, "err": "", "groups": [sorted(runlib.P(x) for x in g) for g in r["out"]["target_groups"]]}
+                    else:
+                        o = {"ok": False, "err": fx.err_type(r)[0] or "other", "groups": []}
+                    recs.append({"ev": "groups", "config": {"targets": []}, "roots": [], "pruned": False, "changed": [], "out": o, "via": api + "_" + variant})
+            finally:
+                fx.cleanup()
+        return recs
     with ThreadPoolExecutor(max_workers=8) as ex:
         out = list(ex.map(one, range(n)))
-    return [r for a, _ in out for r in a], [r for _, b in out for r in b]
+    extra = empty() if pid == "C03" else []
+    return [r for a, _ in out for r in a] + extra, [r for _, b in out for r in b]
 
 
 def cli_c01_sample(bins, tier, seed):
